@@ -7,6 +7,7 @@
 package main
 
 import (
+	"github.com/thushan/olla/internal/adapter/proxy/olla"
 	"bytes"
 	"strings"
 	"encoding/hex"
@@ -40,6 +41,9 @@ type Scenario struct {
 	// the latter with discovery_refresh_on_miss) and fallback_behavior (all | none | compatible_only). Judged by the
 	// property's clauses on what the client saw; the handler model is not consulted for these
 	Strategy string `json:"strategy,omitempty"`
+	// HalfOpen (olla engine): every endpoint's breaker was opened by a history of failed exchanges and its window has
+	// elapsed, so the judged request is the recovery probe
+	HalfOpen bool `json:"half_open,omitempty"`
 }
 
 type Obs struct {
@@ -115,6 +119,33 @@ func run(sc *Scenario) *Obs {
 	if !anth.WaitCatalogued(s, bes, 2) {
 		obs.StartErr = "model catalogue did not settle"
 		return obs
+	}
+	if sc.HalfOpen {
+		if svc, ok := s.Proxy.(*olla.Service); ok {
+			for i, b := range bes {
+				for j, o := range bes { // isolate endpoint i
+					st := domain.StatusOffline
+					if j == i {
+						st = domain.StatusHealthy
+					}
+					s.SetStatus(o.Name, st)
+				}
+				b.SetBehaviour(stack.Behaviour{Kind: "close0"})
+				for k := 0; k < 12; k++ {
+					before := b.Count()
+					stack.Do(s.Addr, stack.Request("POST", "/olla/proxy/v1/chat/completions", s.Addr, [][2]string{{"Content-Type", "application/json"}}, []byte(`{"prime":true}`), false), 2*time.Second)
+					s.SetStatus(b.Name, domain.StatusHealthy)
+					if b.Count() == before {
+						break // the breaker no longer lets anything through: it is open
+					}
+				}
+				b.Taken()
+				olla.VerifRewindEndpointBreaker(svc, b.Name, 31*time.Second)
+			}
+			for _, o := range bes {
+				s.SetStatus(o.Name, domain.StatusHealthy)
+			}
+		}
 	}
 	var sent []byte
 	var sentCT string
@@ -304,6 +335,17 @@ func main() {
 					}
 					add(Scenario{Fault: "mixed", Route: route, Stream: stream, Engine: engine, N: 2, Status: 200})
 					add(Scenario{Fault: "mixed", Route: route, Stream: stream, Engine: engine, N: 3, Status: 200})
+					// the judged request is the breaker's recovery probe (olla engine): the backend's own answer is the client's
+					if engine == "olla" {
+						for _, st := range []int{503, 500, 429, 404} {
+							f := "b5xx"
+							if st < 500 {
+								f = "b4xx"
+							}
+							add(Scenario{Fault: f, Route: route, Stream: stream, Engine: engine, N: 1, Status: st, ErrBody: "json", HalfOpen: true})
+						}
+						add(Scenario{Fault: "none", Route: route, Stream: stream, Engine: engine, N: 1, Status: 200, HalfOpen: true})
+					}
 					// the failures that are decided by routing, under the routing strategies an operator may configure
 					for _, strat := range []string{"optimistic-all", "discovery-all", "optimistic-none", "discovery-compatible_only"} {
 						for _, fault := range []string{"no-endpoints", "unknown-model", "refuse"} {
